@@ -11,7 +11,7 @@
 (*                 position `fixed`, resp. at some position >= max(i, min)        *)
 (* The obligations are checked on every input up to MaxLen over the pattern's own *)
 (* alphabet plus one foreign letter and LF.  One TLC state per facts event.       *)
-EXTENDS ApiOps, Search, TLC
+EXTENDS ApiOps, OpSem, TLC
 
 Rec == ndJsonDeserialize(IOEnv.TRACE)
 MaxLenF == 3
@@ -32,9 +32,21 @@ OpLen(op, s, j, F) ==                           \* length of op.min consecutive 
   IN IF op.r.k \notin {"atom", "class"} THEN 0
      ELSE IF \A q \in 1..op.min : ok(q) THEN op.min * unit ELSE -1
 
-PatAlphabet(ast) == LET cs == {pr[1] : pr \in PatChars(ast)} IN
-  (IF Cardinality(cs) <= 3 THEN cs ELSE {CHOOSE c \in cs : TRUE}) \cup {120, 10}
-InputsF(A) == UNION {[1..n -> A] : n \in 0..MaxLenF}
+PatAlphabet(ast, F) == LET cs == {pr[1] : pr \in PatChars(ast)}
+                           base == IF Cardinality(cs) <= 3 THEN cs ELSE {CHOOSE c \in cs : TRUE} IN
+  base \cup {120, 10} \cup (IF F.i THEN {Counterpart(c) : c \in IF Cardinality(base) <= 2 THEN base ELSE {CHOOSE c \in base : TRUE}} ELSE {})
+InputsF(A, n) == UNION {[1..m -> A] : m \in 0..n}
+
+(* translation validation: what the tree the CODE built computes (OpSem), against the reference semantics *)
+SemOk(P, o, s) ==
+  \A i \in 1..Len(s) + 1 :
+    LET a == OpFirstAt(o, P.ng, s, i, P.F)
+        b == FirstAt(P.ast, P.ng, s, i, P.F)
+        ok == IF P.strict /\ ~P.iterambig THEN a = b
+              ELSE IF P.strict THEN (a = <<>>) = (b = <<>>) /\ (a # <<>> => a[1] = b[1])
+              ELSE (a # <<>>) = IsMatchAt(P.ast, P.ng, s, i, P.F)
+    IN ok \/ Report("lowering", [what |-> "the operator tree computes another match than the pattern", input |-> s, start |-> i - 1,
+                                   tree |-> (IF a = <<>> THEN <<>> ELSE <<a[1] - 1>>), pattern |-> (IF b = <<>> THEN <<>> ELSE <<b[1] - 1>>)])
 
 Obligations(P, fa, s) ==
   \A i \in 1..Len(s) + 1 :
@@ -54,7 +66,7 @@ Obligations(P, fa, s) ==
               ELSE \E j \in 1..Len(s) : j >= i /\ j >= pc.min + 1 /\ OpAt(pc.op, s, j, P.F)
            \/ Report("facts", [fact |-> "precondition", nr |-> q, fixed |-> pc.fixed, min |-> pc.min, input |-> s, start |-> i - 1])
 
-FInit == l = 1 /\ TLCSet(10, 1) /\ TLCSet(1, 0) /\ TLCSet(2, 0)
+FInit == l = 1 /\ TLCSet(10, 1) /\ TLCSet(1, 0) /\ TLCSet(2, 0) /\ TLCSet(3, 0)
 FNext ==
   /\ l <= Len(Rec) /\ l' = l + 1 /\ TLCSet(10, l + 1)
   /\ LET c == Compile(Ev.pat, Ev.flags, Ev.xpath) IN
@@ -62,24 +74,27 @@ FNext ==
      ELSE IF LangUnspec(c.prog) \/ (c.prog.F.i /\ (\E pr \in PatChars(c.prog.ast) : \E e \in Exotic : InR(e, pr[1], pr[2])))
      THEN TLCSet(2, TLCGet(2) + 1)
      ELSE /\ TLCSet(1, TLCGet(1) + 1)
-          (* translation validation of the compiler: the operator tree the code built is the one the model lowers to *)
+          (* The operator tree and the facts are compared with the model's (Engine!Program, Search!FactsOf).  A     *)
+          (* difference is not a violation by itself - another lowering may be just as right - it makes the       *)
+          (* semantic checks below go deeper; those report witnesses (an input on which the tree or a fact is     *)
+          (* wrong), which the orchestrator then confirms against the running code.                               *)
           /\ LET pat == IF ParseFlags(Ev.flags, Ev.xpath).x THEN Strip(Ev.pat) ELSE Ev.pat
-                 model == Program(c.prog, pat) IN
-             /\ (TreeOk(model, Ev.facts.ops) \/ Report("lowering", [model |-> model, code |-> Ev.facts.ops]))
-             (* ... and the facts the code derived from it are the ones the model derives (ReProgram::new) *)
-             /\ LET mf == FactsOf(c.prog, model)  cf == Ev.facts
-                    sameKind(a, b) == IF a.k \in {"atom", "class"} THEN b.k = a.k
-                                      ELSE b.k \in {"repeat", "greedyfixed", "reluctantfixed", "unambiguous"} /\ b.min = a.min
-                    ok == /\ cf.minlen = mf.minlen /\ cf.hasbol = mf.hasbol
-                          /\ cf.prefix.some = (mf.prefix # <<>>) /\ (mf.prefix # <<>> => cf.prefix.v = mf.prefix[1])
-                          /\ cf.initial.some = (mf.initial # <<>>)
-                          /\ Len(cf.pre) = Len(mf.pre)
-                          /\ \A q \in 1..Len(mf.pre) : cf.pre[q].fixed = mf.pre[q].fixed /\ cf.pre[q].min = mf.pre[q].min
-                                                       /\ sameKind(mf.pre[q].op, cf.pre[q].op)
-                IN ok \/ Report("lowering", [what |-> "facts differ from the model", minlen |-> mf.minlen, hasbol |-> mf.hasbol,
-                                              prefix |-> mf.prefix, npre |-> Len(mf.pre)])
-          /\ \A s \in InputsF(PatAlphabet(c.prog.ast)) : (CaseUnspec(c.prog, s) \/ GcUnspec(c.prog, s)) \/ Obligations(c.prog, Ev.facts, s)
+                 model == Program(c.prog, pat)
+                 mf == FactsOf(c.prog, model)  cf == Ev.facts
+                 sameKind(a, b) == IF a.k \in {"atom", "class"} THEN b.k = a.k
+                                   ELSE b.k \in {"repeat", "greedyfixed", "reluctantfixed", "unambiguous"} /\ b.min = a.min
+                 factsOk == /\ cf.minlen = mf.minlen /\ cf.hasbol = mf.hasbol
+                            /\ cf.prefix.some = (mf.prefix # <<>>) /\ (mf.prefix # <<>> => cf.prefix.v = mf.prefix[1])
+                            /\ cf.initial.some = (mf.initial # <<>>)
+                            /\ Len(cf.pre) = Len(mf.pre)
+                            /\ \A q \in 1..Len(mf.pre) : cf.pre[q].fixed = mf.pre[q].fixed /\ cf.pre[q].min = mf.pre[q].min
+                                                          /\ sameKind(mf.pre[q].op, cf.pre[q].op)
+                 same == TreeOk(model, cf.ops) /\ factsOk
+                 n == IF same THEN MaxLenF ELSE MaxLenF + 2
+             IN /\ (same \/ (TLCSet(3, TLCGet(3) + 1) /\ PrintT("NOTE " \o ToString(l) \o " tree or facts differ from the model's: checked to length " \o ToString(n))))
+                /\ \A s \in InputsF(PatAlphabet(c.prog.ast, c.prog.F), n) :
+                      (CaseUnspec(c.prog, s) \/ GcUnspec(c.prog, s)) \/ (Obligations(c.prog, cf, s) /\ SemOk(c.prog, cf.ops, s))
 FAccepted == /\ PrintT("TRACE-STATS " \o ToJson([lines |-> Len(Rec), consumed |-> TLCGet(10) - 1, compared |-> TLCGet(1),
-                                                 unspec |-> TLCGet(2)]))
+                                                 unspec |-> TLCGet(2), differ |-> TLCGet(3)]))
              /\ TLCGet(10) = Len(Rec) + 1
 =============================================================================
